@@ -2699,6 +2699,13 @@ func (t *Terminal) resizeIfNeeded() bool {
 		return true
 	}
 
+	// Check if a window for the header (lines) exists that should not, or the
+	// other way around, e.g. after toggle-header
+	if (t.headerWindow != nil) != t.hasHeaderWindow() || (t.headerLinesWindow != nil) != t.hasHeaderLinesWindow() {
+		t.printAll()
+		return true
+	}
+
 	// Check if the header borders are used and header has changed
 	allHeaderLines := t.visibleHeaderLines()
 	primaryHeaderLines := allHeaderLines
